@@ -295,23 +295,38 @@ func runSchedule(t *testing.T, s Schedule, horizon int, dir string) (res RunResu
 			h.mu.Lock()
 			h.Phase = "rerun"
 			h.mu.Unlock()
-			for i := 0; i < n; i++ {
-				start(i, 0)
+			// everybody together; on the default schedule also the leader alone and the last member alone
+			groups := [][]int{nil}
+			if len(s.Devs) == 0 && n > 1 {
+				groups = append(groups, []int{0}, []int{n - 1})
 			}
-			for k := 0; k < 120; k++ {
-				synctest.Wait()
-				collect()
-				if allDone() {
+			for gi, grp := range groups {
+				who := "everybody"
+				if grp == nil {
+					for i := 0; i < n; i++ {
+						start(i, 0)
+					}
+				} else {
+					who = fmt.Sprintf("member %d alone", grp[0])
+					start(grp[0], 0)
+				}
+				for k := 0; k < 120; k++ {
+					synctest.Wait()
+					collect()
+					if allDone() {
+						break
+					}
+					if _, err := h.MineBlock(-1); err != nil {
+						res.Harness = "mine (rerun): " + err.Error()
+						return
+					}
+					time.Sleep(blockMs * time.Millisecond)
+				}
+				if !allDone() {
+					res.Violations = append(res.Violations, Violation{"rerun-no-termination", map[string]any{"n": n, "who": who}, "a second run on the finished chain (" + who + ") did not return within 120 blocks"})
 					break
 				}
-				if _, err := h.MineBlock(-1); err != nil {
-					res.Harness = "mine (rerun): " + err.Error()
-					return
-				}
-				time.Sleep(blockMs * time.Millisecond)
-			}
-			if !allDone() {
-				res.Violations = append(res.Violations, Violation{"rerun-no-termination", map[string]any{"n": n}, "a second run on the finished chain did not return within 120 blocks"})
+				_ = gi
 			}
 			h.mu.Lock()
 			for _, sub := range h.Subs {
